@@ -639,7 +639,7 @@ pub fn property() -> Property {
                 name: "strings",
                 plan: |t| match t {
                     Tier::Quick => Plan::Random { cases: 150_000, max_len: 60 },
-                    Tier::Thorough => Plan::Random { cases: 3_000_000, max_len: 80 },
+                    Tier::Thorough => Plan::Random { cases: 12_000_000, max_len: 80 },
                 },
                 case: case_strings,
                 min_classes: &[("multibyte-haystack", 10000), ("needle-longer-than-haystack", 1000), ("prefix-relation-checked", 2000), ("split-join-relation-checked", 2000)],
@@ -648,7 +648,7 @@ pub fn property() -> Property {
                 name: "numbers",
                 plan: |t| match t {
                     Tier::Quick => Plan::Random { cases: 100_000, max_len: 20 },
-                    Tier::Thorough => Plan::Random { cases: 2_000_000, max_len: 20 },
+                    Tier::Thorough => Plan::Random { cases: 8_000_000, max_len: 20 },
                 },
                 case: case_numbers,
                 min_classes: &[("operands-differ-in-last-digit", 10000), ("non-numeric-operand", 1000)],
@@ -657,7 +657,7 @@ pub fn property() -> Property {
                 name: "calc",
                 plan: |t| match t {
                     Tier::Quick => Plan::Random { cases: 60_000, max_len: 60 },
-                    Tier::Thorough => Plan::Random { cases: 1_000_000, max_len: 60 },
+                    Tier::Thorough => Plan::Random { cases: 4_000_000, max_len: 60 },
                 },
                 case: case_calc,
                 min_classes: &[("exact-integer-division", 2000), ("decimal-operands", 5000)],
@@ -666,7 +666,7 @@ pub fn property() -> Property {
                 name: "range",
                 plan: |t| match t {
                     Tier::Quick => Plan::Random { cases: 20_000, max_len: 10 },
-                    Tier::Thorough => Plan::Random { cases: 200_000, max_len: 10 },
+                    Tier::Thorough => Plan::Random { cases: 800_000, max_len: 10 },
                 },
                 case: case_range,
                 min_classes: &[("range-start-after-end", 500), ("range-non-numeric", 500)],
